@@ -311,6 +311,8 @@ def gen_cases(rng, tier):
         if i < (2 if not T else 6):
             out.append(case("secp-sig-plain", "sig", "secp", [rng.randrange(1, N)], key, msg, f, False))
             out.append(case("secp-sig-preimage", "sig", "secp", [rng.randrange(1, N)], key, msg + f.to_bytes(4, "little"), f, True))
+    out.append(case("secp-sig-plain-msg-ends-with-flag", "sig", "secp", [rng.randrange(1, N)], (77).to_bytes(32, "big"),
+                    b"legacy tx bytes" + (1).to_bytes(4, "little"), 0x01, False))
     out.append(case("secp-sig-preimage-noflag", "sig", "secp", [7], (3).to_bytes(32, "big"), b"abc" + (0x81).to_bytes(4, "little"), None, True))
     out.append(case("secp-sig-preimage-mismatch", "sig", "secp", [7], (3).to_bytes(32, "big"), b"abc" + (0x81).to_bytes(4, "little"), 0x01, True))
     # --- DER codec (cheap)
@@ -349,6 +351,19 @@ def gen_cases(rng, tier):
                         msg += f.to_bytes(4, "little")
                     draws = [rng.randrange(0, n) for _ in range(12)]
                     out.append(case(cname + "-sig", "sig", cname, draws, key, msg, f, pre))
+        # plain-message mode with a message that happens to END with the flag's 4-byte encoding (e.g. a legacy tx with
+        # nLockTime == 1 signed with SIGHASH_ALL): the flag must still be appended before hashing
+        for f in FLAGS:
+            key = rng.randrange(1, n).to_bytes(32, "big")
+            draws = [rng.randrange(0, n) for _ in range(12)]
+            out.append(case(cname + "-sig-plain-msg-ends-with-flag", "sig", cname, draws, key,
+                            rng.randbytes(rng.choice([0, 7, 40])) + f.to_bytes(4, "little"), f, False))
         out.append(case(cname + "-sig-bad-key", "sig", cname, [1, 2, 3], n.to_bytes(32, "big"), b"m", 1, False, strict=True))
         out.append(case(cname + "-sig-flag-overflow", "sig", cname, [1, 2, 3], (1).to_bytes(32, "big"), b"m", 256, False))
     return out
+
+
+# ops whose answer must not depend on the concrete bytes-like type of their arguments (they agree on the pinned tree;
+# tools/bytearray_probe.py); common.py re-runs a sample of their cases with bytearray arguments
+BYTEARRAY_OPS = {'der_dec'}
+MEMORYVIEW_OPS = {'der_dec'}
